@@ -106,6 +106,12 @@ static void gen_wellformed(char* out, int size_opt) {
   static const char* u[] = { "K", "M", "G", "T", "k", "m", "g", "t" }; static const char* s[] = { "", "iB", "B", "ib", "b", "IB" };
   sprintf(out, "%s%s%s%s", sign, digits, u[rndn(8)], s[rndn(6)]);
 }
+// leading zeros up to the longest value that is still read completely (64 characters), and one around it
+static void pad_to_boundary(char* out) {
+  size_t n = strlen(out); if (n == 0 || n >= 60) return; size_t sign = (out[0] == '-' || out[0] == '+') ? 1 : 0; if (!isdigit((unsigned char)out[sign])) return;
+  static const size_t L[] = { 64, 64, 64, 63, 62, 33, 48 }; size_t want = L[rndn(7)]; if (want <= n) return; size_t z = want - n;
+  memmove(out + sign + z, out + sign, n - sign + 1); memset(out + sign, '0', z);
+}
 static void gen_malformed(char* out, size_t cap, int size_opt) {
   gen_wellformed(out, size_opt); size_t n = strlen(out); unsigned k = (unsigned)rndn(8);
   static const char junkc[] = "xX=;,. _-+eE'\"/\\\t\x7f\x80\xff#KMGTiBb";
@@ -230,7 +236,7 @@ int main(int argc, char** argv) {
   // generated values
   static char val[9000];
   for (long i = 0; i < N; i++) { int o = (int)rndn(_mi_option_last); if (rndn(3) == 0) o = (rndn(2) ? mi_option_arena_reserve : mi_option_reserve_os_memory);
-    int wf = (int)rndn(2); if (wf) gen_wellformed(val, is_size_opt(o)); else gen_malformed(val, sizeof val - 16, is_size_opt(o));
+    int wf = (int)rndn(2); if (wf) { gen_wellformed(val, is_size_opt(o)); if (rndn(6) == 0) pad_to_boundary(val); } else gen_malformed(val, sizeof val - 16, is_size_opt(o));
     int junk = (rndn(50) == 0 ? 9990 + (int)rndn(20) : (int)rndn(6)); check_env(o, (int)rndn(6), val, junk, wf ? 2 : 0);
     if (i == 5) { char s[240]; snprintf(s, sizeof s, "env option=%s value=\"%.60s\" (generated %s)", options[o].name, val, wf ? "well-formed" : "malformed"); sample(s); } }
   // (b)
